@@ -272,6 +272,9 @@ pub fn check(c: &Case, stats: &mut Stats) -> CheckResult {
         let (sig, msg) = explain(&want_rt, &rt_diff);
         return fail(format!("compare/roundtrip/{sig}"), format!("compare(o, roundtrip(o)): {msg}"));
     }
+    if (0..3).any(|k| m1.direct[k].iter().any(|(id, t)| t.1.len() > 30 && m2.direct[k].get(id).is_some_and(|t2| t2.1.len() > 30 && t2.1 != t.1))) {
+        stats.label("record-with-more-than-30-terms-on-both-sides-changed");
+    }
     for e in &c.edits {
         stats.label(&format!("edit:{e}"));
     }
@@ -459,7 +462,83 @@ pub fn apply_edit(f: &mut Facts, kind: usize, p: [u16; 3], name: &str) -> Option
     Some(EDIT_KINDS[kind])
 }
 
+/// Records with 31-70 direct terms on both sides (beyond the inline capacity of the id groups), differing at
+/// the extremes of their term lists or anywhere in between.
+fn wide_record_strategy() -> BoxedStrategy<Case> {
+    let cfg = GenCfg::small().terms(34, 72).recs(2).standard().with_flags(true).names(NameMode::Plain);
+    let paths = prop_oneof![4 => Just(PathSel::Bin(3)), 1 => Just(PathSel::Bin(1)), 1 => Just(PathSel::Jax), 1 => Just(PathSel::BuilderDefaults)];
+    (gen::facts(cfg), vec(any::<u8>(), 72), vec((0usize..3, 0u8..6, any::<u16>()), 1..=3), paths)
+        .prop_map(|(mut old, mask, script, path)| {
+            if path == PathSel::BuilderDefaults {
+                for t in old.terms.iter_mut() {
+                    t.obsolete = false;
+                    t.replacement = None;
+                }
+            }
+            let mut ids: Vec<u32> = old.terms.iter().map(|t| t.id).collect();
+            ids.sort_unstable();
+            for k in 0..3 {
+                if old.recs[k].is_empty() {
+                    old.recs[k].push(RecFact { id: 77 + k as u32, name: format!("wide {k}"), terms: vec![] });
+                }
+                // nine terms in ten, never fewer than 31
+                let mut terms: Vec<u32> = ids.iter().enumerate().filter(|(i, _)| mask[(i + 7 * k) % mask.len()] % 10 != 0).map(|(_, t)| *t).collect();
+                for t in &ids {
+                    if terms.len() >= 32 {
+                        break;
+                    }
+                    if !terms.contains(t) {
+                        terms.push(*t);
+                    }
+                }
+                old.recs[k][0].terms = terms;
+            }
+            old.ann_calls = old.canonical_ann_calls();
+            let mut new = old.clone();
+            let mut edits = Vec::new();
+            for (k, what, sel) in script {
+                let r = &mut new.recs[k][0];
+                r.terms.sort_unstable();
+                let missing: Vec<u32> = ids.iter().copied().filter(|t| !r.terms.contains(t)).collect();
+                match what {
+                    0 if r.terms.len() > 31 => {
+                        r.terms.pop();
+                        edits.push("remove-link".to_string());
+                    }
+                    1 if r.terms.len() > 31 => {
+                        r.terms.remove(0);
+                        edits.push("remove-link".to_string());
+                    }
+                    2 if r.terms.len() > 31 => {
+                        r.terms.remove(pick(sel, r.terms.len()));
+                        edits.push("remove-link".to_string());
+                    }
+                    3 if !missing.is_empty() => {
+                        r.terms.push(*missing.last().unwrap());
+                        edits.push("add-link".to_string());
+                    }
+                    4 if !missing.is_empty() => {
+                        r.terms.push(missing[0]);
+                        edits.push("add-link".to_string());
+                    }
+                    _ if !missing.is_empty() => {
+                        r.terms.push(missing[pick(sel, missing.len())]);
+                        edits.push("add-link".to_string());
+                    }
+                    _ => {}
+                }
+            }
+            new.ann_calls = new.canonical_ann_calls();
+            Case { old, new, edits, path }
+        })
+        .boxed()
+}
+
 fn strategy(tier: Tier) -> BoxedStrategy<Case> {
+    prop_oneof![12 => small_strategy(tier), 1 => wide_record_strategy()].boxed()
+}
+
+fn small_strategy(tier: Tier) -> BoxedStrategy<Case> {
     let max = if tier == Tier::Quick { 12 } else { 40 };
     // names up to 300 bytes; for the binary paths they are cut to the 255 bytes the format stores
     let cfg = GenCfg::small().terms(2, max).recs(4).standard().with_flags(true).names(NameMode::Rich);
@@ -500,7 +579,7 @@ impl Property for C18 {
         "C18"
     }
     fn rule(&self) -> String {
-        "Generated: a base fact set (both ontologies built through own v3 / v2 / v1 bytes, the as_bytes round trip or JAX files; obsolete terms, replacements to existing and to non-existing ids, records of all kinds) and an edit script of 0-4 edits out of 15 kinds (rename term, add/remove parent link, flip obsolete, set replacement to an existing / non-existing id, clear replacement, change replacement between two ids that are not terms, add/remove term, add/remove/rename record, add/remove link). Oracle: the difference computed on the two fact sets: added/removed id sets per entity kind; changed terms with exact name pair, added/removed parent sets, obsolete pair, replacement id pair; changed records with name pair, added/removed terms, n_terms; every list free of duplicates; compare(new,old) is the mirror image; compare(o,o) reports nothing and compare(o, roundtrip(o)) exactly the names the binary format cuts at 255 bytes (text path: names up to 300 bytes; one rename in three extends the old name, so that long names share a long prefix, one in three only swaps the ASCII case of its letters). evaluations = comparisons. Non-trivial = the two fact sets differ; every edit kind must occur as a single-edit script in a run; distinct by hash of the case.".into()
+        "Generated: a base fact set (both ontologies built through own v3 / v2 / v1 bytes, the as_bytes round trip or JAX files; obsolete terms, replacements to existing and to non-existing ids, records of all kinds) and an edit script of 0-4 edits out of 15 kinds (rename term, add/remove parent link, flip obsolete, set replacement to an existing / non-existing id, clear replacement, change replacement between two ids that are not terms, add/remove term, add/remove/rename record, add/remove link); one case in thirteen has 34-72 terms and per kind a record directly on >= 31 of them, with links added / removed at the lowest id, the highest id or in between. Oracle: the difference computed on the two fact sets: added/removed id sets per entity kind; changed terms with exact name pair, added/removed parent sets, obsolete pair, replacement id pair; changed records with name pair, added/removed terms, n_terms; every list free of duplicates; compare(new,old) is the mirror image; compare(o,o) reports nothing and compare(o, roundtrip(o)) exactly the names the binary format cuts at 255 bytes (text path: names up to 300 bytes; one rename in three extends the old name, so that long names share a long prefix, one in three only swaps the ASCII case of its letters). evaluations = comparisons. Non-trivial = the two fact sets differ; every edit kind must occur as a single-edit script in a run; distinct by hash of the case.".into()
     }
     fn assumptions(&self) -> Vec<String> {
         vec!["'replacement' of a term is the replacement id stored with it (replacement_id), whether or not that id is a term of the same ontology".into()]
@@ -515,7 +594,7 @@ impl Property for C18 {
         vec![
             "nontrivial", "single:rename-term", "single:add-parent", "single:remove-parent", "single:flip-obsolete", "single:set-replacement-existing", "single:set-replacement-dangling",
             "single:clear-replacement", "single:add-term", "single:remove-term", "single:add-record", "single:remove-record", "single:rename-record", "single:add-link", "single:remove-link",
-            "single:change-replacement-dangling-to-dangling", "name-longer-than-255-bytes", "bulk>65535-terms", "replacement-id-0",
+            "single:change-replacement-dangling-to-dangling", "name-longer-than-255-bytes", "bulk>65535-terms", "replacement-id-0", "record-with-more-than-30-terms-on-both-sides-changed",
         ]
     }
     fn run_generated(&self, tier: Tier, seed: u64, n: u64, stats: &mut Stats) -> Option<(Value, Failure)> {
